@@ -71,11 +71,11 @@ static void conf_from_cmd(Cmd *c, CC_HashTableConf *conf) {
 static CC_HashTable *ht;
 static CC_Array *darr[NSLOT];
 static int dkind[NSLOT]; /* 1 = keys array (elements are key pointers), 2 = values */
-static CC_HashTableIter it; static int it_valid, it_can_remove;
+static CC_HashTableIter it; static int it_valid;
 static uint64_t universe[4096]; static size_t n_univ;
 static unsigned long long ord_log[4096]; static size_t ord_n; static int ord_on;
 static int load_bound_broken; /* C20: size > threshold right after a successful insertion */
-static void shim_reset(void) { ht = NULL; for (int i = 0; i < NSLOT; i++) darr[i] = NULL; it_valid = it_can_remove = 0; n_univ = 0; }
+static void shim_reset(void) { ht = NULL; for (int i = 0; i < NSLOT; i++) darr[i] = NULL; it_valid = 0; n_univ = 0; }
 static void univ_add(uint64_t k) {
     for (size_t i = 0; i < n_univ; i++) if (universe[i] == k) return;
     if (n_univ < 4096) universe[n_univ++] = k;
@@ -137,7 +137,7 @@ static void phys(void) {
             o(o_first ? "%zu:%llu:%llu:%zu" : ",%zu:%llu:%llu:%zu", i, keyval(e->key), VAL(e->value), e->hash); o_first = 0; total++;
         }
         o_end();
-        if (it_valid) { char b1[32], b2[32]; o(" it=%zu/%s/%s/%d", it.bucket_index, ptr_name(it.prev_entry, b1), ptr_name(it.next_entry, b2), it_can_remove); }
+        if (it_valid) { char b1[32], b2[32]; o(" it=%zu/%s/%s", it.bucket_index, ptr_name(it.prev_entry, b1), ptr_name(it.next_entry, b2)); }
         /* L2 walkers */
         if (load_bound_broken) o(" WALK=load-bound-after-insert");
         if (total != ht->size) o(" WALK=chain-lengths-vs-size");
@@ -170,7 +170,7 @@ static void do_op(Cmd *c) {
         if (st != CC_OK) ht = NULL;
         o_stat(st); o(" ");
     } else if (is_op(c, "new_default")) {
-        ht = NULL; it_valid = 0; default_mode = 1; key_kind = K_STR;
+        ht = NULL; it_valid = 0; key_kind = K_STR;
         enum cc_stat st = cc_hashtable_new(&ht); if (st != CC_OK) ht = NULL; o_stat(st); o(" ");
     } else if (is_op(c, "arr_add") || is_op(c, "arr_destroy")) {
         if (slot < 1 || slot >= NSLOT || !darr[slot]) { o("st=- noslot "); }
@@ -208,15 +208,15 @@ static void do_op(Cmd *c) {
             o_stat(st); o(" ");
         }
     } else if (is_op(c, "it_new")) {
-        cc_hashtable_iter_init(&it, ht); it_valid = 1; it_can_remove = 0; o("st=- ");
+        cc_hashtable_iter_init(&it, ht); it_valid = 1; o("st=- ");
     } else if (is_op(c, "it_next")) {
         if (!it_valid) o("st=- noiter ");
         else { TableEntry *e = NULL; enum cc_stat st = cc_hashtable_iter_next(&it, &e); o_stat(st);
-            if (st == CC_OK) { o(" k=%llu v=%llu", keyval(e->key), VAL(e->value)); it_can_remove = 1; } o(" "); }
+            if (st == CC_OK) { o(" k=%llu v=%llu", keyval(e->key), VAL(e->value)); } o(" "); }
     } else if (is_op(c, "it_remove")) {
-        if (!it_valid || !it_can_remove) o("st=- noiter ");
+        if (!it_valid) o("st=- noiter ");
         else { void *out = PTR(777777); int noout = (int)kv_u64(c, "noout", 0);
-            enum cc_stat st = cc_hashtable_iter_remove(&it, noout ? NULL : &out); it_can_remove = 0;
+            enum cc_stat st = cc_hashtable_iter_remove(&it, noout ? NULL : &out);
             o_stat(st); if (st == CC_OK && !noout) o(" out=%llu", VAL(out)); o(" "); }
     } else if (is_op(c, "destroy_table")) {
         cc_hashtable_destroy(ht); ht = NULL; it_valid = 0; o("st=- ");
